@@ -361,6 +361,9 @@ fn body(rng: &mut StdRng, cfg: &ProgCfg, used: &mut Vec<String>, faulty: bool) -
             let mut g = plain_stmt(rng, cfg.exotic);
             if chance(rng, 35) { g.labels.push(label_name(rng, used)); }
             if chance(rng, 4) { g.labels.push(label_name(rng, used)); }
+            // the same label again on the same address (allowed: no clash), in another spelling:
+            // on the same statement, or on the .end / first statement of a touching block (see gen_program)
+            if !g.labels.is_empty() && chance(rng, 6) { let l = respell(rng, &g.labels[0]); g.labels.push(l); }
             v.push(g);
         }
     }
@@ -425,9 +428,11 @@ pub fn gen_program(rng: &mut StdRng, cfg: &ProgCfg) -> Vec<GStmt> {
     let mut ext_decl_pending: Vec<String> = externals.clone();
     let ext_where = rng.random_range(0..3); // 0 = before everything, 1 = inside a block, 2 = after everything
     if ext_where == 0 { for e in ext_decl_pending.drain(..) { let mut g = GStmt::new(".external", 0, 0, 0, 2); g.lbl = e; prog.push(g); } }
+    let mut pending_first_label: Option<(usize, String)> = None;
     for (n, &bi) in src_order.iter().enumerate() {
         prog.push(GStmt::new(".orig", origins[bi].min(0xFFFF) as i64, 0, 0, 0));
         let mut b = bodies[bi].clone();
+        if let Some((bj, l)) = pending_first_label.take() { if bj == bi && !b.is_empty() { b[0].labels.insert(0, l); } }
         // uses of externals
         for e in &externals { if chance(rng, 60) && !b.is_empty() {
             let at = rng.random_range(0..=b.len());
@@ -441,7 +446,16 @@ pub fn gen_program(rng: &mut StdRng, cfg: &ProgCfg) -> Vec<GStmt> {
         } }
         prog.extend(b);
         let mut end = GStmt::new(".end", 0, 0, 0, 0);
-        if chance(rng, 5) { end.labels.push(label_name(rng, &mut used)); }
+        if chance(rng, 8) { end.labels.push(label_name(rng, &mut used)); }
+        // a label on `.end` has the address just past the block: repeat it (other spelling) on the first
+        // statement of a block that starts exactly there, if the next block in source order does
+        if let Some(&bj) = src_order.get(n + 1) {
+            let this_end = origins[bi] + body_size(&bodies[bi]);
+            if origins[bj] == this_end && !bodies[bj].is_empty() && chance(rng, 60) {
+                let l = if let Some(l) = end.labels.first() { l.clone() } else { let l = label_name(rng, &mut used); end.labels.push(l.clone()); l };
+                pending_first_label = Some((bj, respell(rng, &l)));
+            }
+        }
         prog.push(end);
     }
     for e in ext_decl_pending.drain(..) { let mut g = GStmt::new(".external", 0, 0, 0, 2); g.lbl = e; prog.push(g); }
